@@ -40,6 +40,11 @@ impl TryFrom<crate::Instant> for DateTime<Utc> {
     type Error = TimeError;
 
     fn try_from(time: crate::Instant) -> Result<Self, Self::Error> {
+        if time.nanos >= 1_000_000_000 {
+            // not a valid `Instant` (a deserialized one can be); chrono would read it
+            // as a leap second whenever `seconds % 60 == 59`
+            return Err(TimeError::InvalidInstant);
+        }
         let seconds = i64::try_from(time.seconds).map_err(|_| TimeError::InvalidInstant)?;
         DateTime::<Utc>::from_timestamp(seconds, time.nanos).ok_or(TimeError::InvalidInstant)
     }
